@@ -55,7 +55,7 @@ enum Must {
     WrongKind,
 }
 
-pub const SHAPES: &[&str] = &["empty", "one_node", "edgeless", "one_edge", "self_loop_only", "isolated_plus_component", "star", "path", "parallel_only", "two_components", "loop_and_parallel", "reciprocal_pair", "diamond", "triangle_with_tail"];
+pub const SHAPES: &[&str] = &["empty", "one_node", "edgeless", "one_edge", "self_loop_only", "isolated_plus_component", "star", "path", "parallel_only", "two_components", "loop_and_parallel", "reciprocal_pair", "diamond", "triangle_with_tail", "path_of_25"];
 
 fn shape_ops(shape: &str, directed: bool, multi: bool, loops: bool, weighted: bool) -> Vec<Op> {
     let w = |x: f64| if weighted { wbits(x) } else { NAN_BITS };
@@ -88,6 +88,15 @@ fn shape_ops(shape: &str, directed: bool, multi: bool, loops: bool, weighted: bo
         "two_components" => vec![nodes(&["d", "b", "c", "a"]), e("a", "b", 1.0), e("c", "d", 2.0)],
         // two equally long routes a -> d (ties) and a degree-one tail
         "diamond" => vec![nodes(&["d", "c", "b", "a"]), e("a", "b", 1.0), e("a", "c", 1.0), e("b", "d", 1.0), e("c", "d", 1.0)],
+        // above the serial-to-parallel threshold of the algorithms (the environment's pool has > 1 worker)
+        "path_of_25" => {
+            let names: Vec<String> = (0..25).map(|i| format!("v{}", 24 - i)).collect();
+            let mut v = vec![Op::AddNodes(names.iter().map(|s| (s.clone(), None)).collect())];
+            for i in 1..25 {
+                v.push(e(&names[i - 1], &names[i], 1.0 + (i % 3) as f64));
+            }
+            v
+        }
         "triangle_with_tail" => vec![nodes(&["t", "z", "y", "x"]), e("x", "y", 1.0), e("y", "z", 1.0), e("z", "x", 1.0), e("z", "t", 2.0)],
         "loop_and_parallel" => {
             let mut v = vec![nodes(&["b", "a", "c"]), e("a", "b", 1.0), e("b", "c", 1.0)];
@@ -460,7 +469,7 @@ impl Prop for C20Prop {
             if rng.chance(1, 2) {
                 let specs = Specs { directed: d, multi: m, self_loops: l, dedupe: *rng.pick(&[Dedupe::KeepFirst, Dedupe::KeepLast]), missing: Missing::Create, slf: Slf::Drop };
                 case = Case::new("C20", seed, specs);
-                case.ops = gen::gen_history(&mut wr, &gen::HistOpts { specs, max_ops: 12, regime, derived: true, restart: false, names_min: 2, names_max: 5, dup_bias: 30 });
+                case.ops = gen::gen_history(&mut wr, &gen::HistOpts { specs, max_ops: 12, regime, derived: true, restart: false, names_min: 2, names_max: 5, dup_bias: 30, big: false });
             } else {
                 let (specs, ops) = gen::gen_graph(&mut wr, &gen::GraphOpts { directed: d, multi: m, self_loops: l, n_min: 0, n_max: 6, regime, shape: None, sprinkle: true });
                 case = Case::new("C20", seed, specs);
@@ -468,7 +477,7 @@ impl Prop for C20Prop {
             }
             case.params.put("shape", J::s("random"));
         }
-        case.envs = gen::keyings(seed, 2).into_iter().map(|k| Env { keying: k, pool: 1, sched: 0 }).collect();
+        case.envs = gen::envs(seed, 2);
         case
     }
     fn hang_sig(&self, case: &Case, label: &str) -> String {
